@@ -7,7 +7,7 @@
      InfluxDB line protocol (influxUnmarshal.go): sanitizeLabels(("measurement", name) :: tags in the
          iteration order of a Go map); a metric line appends ("__name__", sanitizeMetricName(field)) AFTER
          sanitising (so that value is not cut)
-     Datadog logs (datadogJsonUnmarshal.go): the ddtags matches in order, then those of ddsource, service,
+     Datadog logs (datadogJsonUnmarshal.go): the ddtags matches (model/DdTags.v dd_tags: the regular expression) in order, then those of ddsource, service,
          hostname, source_type that are not empty, then ("type", "datadog")   - NOT sanitized
      Datadog Cloudflare logs (datadogCFJsonUnmarshal.go): the non-empty ones of eight fixed fields
      Datadog metrics (datadogMetricsJsonUnmarshal.go): in document order ("__name__", metric) and, for the
@@ -19,7 +19,8 @@
          keys through SanitizeKey) and "level" = severity text; the labels are its entries in map order.
    None of the last five calls sanitizeLabels. *)
 From Coq Require Import List ZArith String Ascii Bool Permutation.
-From Qryn Require Import model.GoQuote model.LabelJson model.Fingerprint model.Labels.
+From Qryn Require Import model.GoQuote model.LabelJson model.Fingerprint model.Labels model.GoJson model.DdTags.
+From Qryn Require model.GoFloat.
 Import ListNotations.
 Open Scope Z_scope.
 
@@ -103,15 +104,27 @@ Fixpoint mset (k v : string) (m : list label) : list label :=
   | [] => [(k, v)]
   | (k', v') :: r => if String.eqb k k' then (k, v) :: r else (k', v') :: mset k v r
   end.
-(* SanitizeValue for string, bool and int values (doubles, bytes, arrays and key-value lists are not modelled) *)
-Inductive oval := OStr (s : string) | OBool (b : bool) | OInt (z : Z).
+(* SanitizeValue over an any-value tree: string as it is; bool true/false; int %d; double
+   strconv.FormatFloat(v, 'f', -1, 64) (model/GoFloat.v shortest_text, the transcription property C15 ties to strconv);
+   bytes base64 (standard alphabet, padded); array: json.Marshal of the []string of the items' values; kvlist: json.Marshal
+   of the map[string]string filled in order with SanitizeKey(key) -> value (later wins; encoding/json sorts the keys);
+   an AnyValue without a value: "". *)
+Inductive oval :=
+| OStr (s : string) | OBool (b : bool) | OInt (z : Z)
+| ODouble (bits : N) | OBytes (s : string) | OArr (items : list oval) | OKv (entries : list (string * oval)) | ONone.
 Definition dec_z (z : Z) : string := if z <? 0 then String "-" (dec (- z)) else dec z.
-Definition otlp_value (v : oval) : string :=
+Definition mfill (l : list label) : list label := fold_left (fun m kv => mset (fst kv) (snd kv) m) l [].
+Fixpoint otlp_value (v : oval) : string :=
   match v with
   | OStr s => s
   | OBool true => "true"
   | OBool false => "false"
   | OInt z => dec_z z
+  | ODouble b => GoFloat.shortest_text (GoFloat.fl_of_bits b)
+  | OBytes s => base64 s
+  | OArr items => gj_array (map otlp_value items)
+  | OKv entries => gj_map (mfill (map (fun kv => match kv with (k, x) => (otlp_key k, otlp_value x) end) entries))
+  | ONone => EmptyString
   end.
 Definition otlp_fill (attrs : list (string * oval)) (m : list label) : list label :=
   fold_left (fun m kv => mset (otlp_key (fst kv)) (otlp_value (snd kv)) m) attrs m.
@@ -167,6 +180,24 @@ Section WIRE_FP.
     fingerprint ch64 h128 fin (on_entries_labels ttl_hdr (wire_labels w)).
 End WIRE_FP.
 
+(* ------------------------------------------------------------------ the two open findings as classes of requests
+   The label SET a request denotes: the sanitized pairs of the label list its decoder builds, without the control
+   label __ttl_days__ (sanitizeLabels is not idempotent - a cut value gets "..." again -, so the list of a sanitizing
+   protocol is taken as it is). *)
+Definition strip_ttl (ls : list label) : list label := filter (fun l => negb (is_ttl_label l)) ls.
+Definition sanitizing (w : wire) : bool :=
+  match w with WSanitized _ _ | WInfluxMetric _ _ _ => true | _ => false end.
+Definition wire_set (w : wire) : list label :=
+  strip_ttl (if sanitizing w then wire_labels w else sanitize (wire_labels w)).
+(* finding labels-unsanitized-by-protocol: a decoder that skips sanitizeLabels built a list sanitizeLabels would change *)
+Definition in_unsanitized_class (w : wire) : bool :=
+  negb (sanitizing w) && negb (labels_eqb (sanitize (wire_labels w)) (wire_labels w)).
+(* finding ttl-label-kept-with-ttl-header: the request has a TTL header and its label list carries the control label *)
+Definition in_ttl_class (ttl_hdr : Z) (w : wire) : bool :=
+  negb (ttl_hdr =? 0) && existsb is_ttl_label (wire_labels w).
+Definition outside_findings (ttl_hdr : Z) (w : wire) : bool :=
+  negb (in_unsanitized_class w) && negb (in_ttl_class ttl_hdr w).
+
 (* ------------------------------------------------------------------ the Bernstein fingerprint type
    FingerPrintType = FINGERPRINT_Bernstein: uint64(heputils.FingerprintLabelsDJBHashPrometheus(the 24 bytes)):
      var hash int32 = 5381; for i := len(data)-1; i > -1; i-- { hash = (hash*33) ^ int32(uint16(data[i])) }; uint32(hash) *)
@@ -194,7 +225,9 @@ Record pcase := {
   pc_fps_djb : list Z;               (* observed: the other orders under FingerPrintType = Bernstein *)
   pc_doc : string;                   (* observed: the series row's labels text *)
   pc_has_hdr : bool;                 (* the request was also sent with a TTL header (X-Ttl-Days: 7) *)
-  pc_fp_hdr : Z                      (* observed: its fingerprint then *)
+  pc_fp_hdr : Z;                     (* observed: its fingerprint then *)
+  pc_has_loki : bool;                (* the label list the decoder stored was also pushed as a Loki stream *)
+  pc_fp_loki : Z                     (* observed: the fingerprint Loki stored for it *)
 }.
 Definition pc_labels (c : pcase) : list label := on_entries_labels 0 (wire_labels (pc_wire c)).
 Definition pm_fp (c : pcase) : bool := negb (fingerprint_tbl (pc_ch c) (pc_labels c) =? pc_fp c).
@@ -236,7 +269,21 @@ Definition pv_unsanitized (c : pcase) : bool :=
   | _ => negb (labels_eqb (sanitize (pc_labels c)) (pc_labels c))
   end.
 
+(* spec: the fingerprint does not depend on the protocol: the same label list pushed through Loki gets the same one.
+   Model of the Loki side: sanitizeLabels, then fingerprintLabels. *)
+Definition pm_loki (c : pcase) : bool :=
+  pc_has_loki c && negb (fingerprint_tbl (pc_ch c) (on_entries_labels 0 (sanitize (pc_labels c))) =? pc_fp_loki c).
+Definition pv_proto (c : pcase) : bool := pc_has_loki c && negb (pc_fp_loki c =? pc_fp c).
+(* EXACT findings: an observed dependence is the recorded finding only inside the finding's class; outside it is a violation *)
+Definition pk_unsan (c : pcase) : bool := pv_proto c && in_unsanitized_class (pc_wire c).
+Definition pv_proto_new (c : pcase) : bool := pv_proto c && negb (in_unsanitized_class (pc_wire c)).
+Definition pk_hdr (c : pcase) : bool := pv_hdr c && in_ttl_class 7 (pc_wire c).
+Definition pv_hdr_new (c : pcase) : bool := pv_hdr c && negb (in_ttl_class 7 (pc_wire c)).
+(* inside the classes the dependence is expected to show (a class member WITHOUT it is reported as a count only) *)
+Definition pc_unsan_same (c : pcase) : bool := pc_has_loki c && in_unsanitized_class (pc_wire c) && negb (pv_proto c).
+
 Definition pids (f : pcase -> bool) (cs : list pcase) : list Z := map pc_id (filter f cs).
 Definition preport (cs : list pcase) : list (list Z) :=
-  [pids pm_fp cs; pids pm_djb cs; pids pm_doc cs; pids pv_perm cs; pids pv_doc cs; pids pv_unsanitized cs;
-   pids pm_hdr cs; pids pv_hdr cs].
+  [pids pm_fp cs; pids pm_djb cs; pids pm_doc cs; pids pv_perm cs; pids pv_doc cs; pids pk_unsan cs;
+   pids pm_hdr cs; pids pk_hdr cs; pids pm_loki cs; pids pv_proto_new cs; pids pv_hdr_new cs; pids pc_unsan_same cs;
+   pids pv_unsanitized cs].
